@@ -40,8 +40,19 @@ func (fx *fexec) loopVars(li *loopInfo, phiVal func(*ssa.Phi) Val) map[string]Va
 		dd := domDepth(b)
 		for i, in := range b.Instrs {
 			d, ok := in.(*ssa.DebugRef)
-			if !ok || d.IsAddr {
+			if !ok {
 				continue
+			}
+			if d.IsAddr {
+				// address-taken struct variable: visible as its address (field
+				// selection in contracts auto-dereferences, as in Go)
+				pt, isPtr := d.X.Type().Underlying().(*types.Pointer)
+				if !isPtr {
+					continue
+				}
+				if _, isStruct := pt.Elem().Underlying().(*types.Struct); !isStruct {
+					continue
+				}
 			}
 			obj := d.Object()
 			if obj == nil {
